@@ -35,6 +35,7 @@ EXPLANATION += " R05.20 (=R07.19): the used-name finder that decides which impor
 EXPLANATION += " R05.21: inside the loop over the files of a refactoring no handler swallows an error (a file is never silently left out of a multi-file change)."
 EXPLANATION += " R05.22: the text of a moved global is cut out as it stands, not re-indented (a conditionally defined global is not lifted out of its block)."
 EXPLANATION += " R05.23 (=R01.24): no strip / lstrip / rstrip call in rope has an argument that spells an affix (module names are cut with slices / removesuffix)."
+EXPLANATION += " R05.25: the import filter of MoveGlobal reaches the equality test with the source module's name also when the module lives in a package (from the true side of the dotted-name test)."
 ASSUMPTIONS = [
     "helper summaries: self.m() resolves through the class MRO; x.y.m() is attributed to every method m of the analysed modules",
     "ChangeSet.do applies changes in insertion order (decided under C10/C11)",
@@ -224,6 +225,7 @@ def check(ctx, res) -> None:
     _check_main(ctx, res)
     _shared(ctx, res)
     _import_filter_folder_rule(ctx, res)
+    _filter_selects_the_module_itself_rule(ctx, res)
     _stale_import_cleanup_rule(ctx, res)
     from .common import line_model_rule as _lm
 
@@ -845,3 +847,48 @@ def _moving_text_is_not_reindented_rule(ctx, res) -> None:
             f"`{ast.unparse(bad[0][1])[:60]}` re-indents the text of the moved global: a definition inside a module-level `if` / `try` block is accepted and lifted out of its condition -- "
             "names of its block come back as `from source import NAME` (ImportError when the block did not run), and with a second variant in the `else` arm the remaining "
             "`def` header is rewritten (`def util.checksum(data):`), so the source module no longer compiles", function=f.qualname)
+
+
+def _filter_selects_the_module_itself_rule(ctx, res) -> None:
+    """R05.25: after a global was moved, the imports of every client are cleaned of the stale name by organize_imports, which touches only the
+    statements the import filter SELECTS.  An absolute `from <source module> import name` is the plainest form there is: the filter
+    answers for it by the equality `<info>.module_name == <name of the source module>`.  When the source module lives in a package the
+    filter first looks at the other form (`from <package> import <module>`) -- and the equality test must still be reached when that form
+    does not match: from the TRUE side of the `"." in module_name` test there is a path to the return that holds the equality.  An early
+    `return <package form>` inside that branch leaves `from pkg.src import f` unselected: the stale import stays, next to the new one, and
+    the client raises ImportError when it is imported."""
+    from ..cfg import CFG
+    idx = ctx.idx
+    cls = idx.need_class("rope.refactor.move.MoveGlobal")
+    n = 0
+    for m in sorted(cls.methods.values(), key=lambda m: m.name):
+        modnames = {t.id for a in walk_local(m.node) if isinstance(a, ast.Assign) and isinstance(a.value, ast.Call) and call_name(a.value) == "modname"
+                    for t in a.targets if isinstance(t, ast.Name)}
+        if not modnames or not any(isinstance(p, ast.arg) and p.arg == "stmt" for p in m.node.args.args):
+            continue
+        fnode = common.inline_private_calls(idx, m)
+        cfg = CFG(fnode)
+
+        def is_equality(e) -> bool:
+            return any(isinstance(c, ast.Compare) and len(c.ops) == 1 and isinstance(c.ops[0], ast.Eq)
+                       and any(isinstance(s, ast.Attribute) and s.attr == "module_name" for s in (c.left, c.comparators[0]))
+                       and any(isinstance(s, ast.Name) and s.id in modnames for s in (c.left, c.comparators[0])) for c in ast.walk(e))
+
+        answers = [nd for nd in cfg.nodes if nd.kind == "stmt" and isinstance(nd.ast, ast.Return) and nd.ast.value is not None
+                   and (is_equality(nd.ast.value) or any(pol and is_equality(t) for t, pol in cfg.guards(nd.id)))]
+        dotted = [nd for nd in cfg.nodes if nd.kind == "test" and isinstance(nd.ast, ast.Compare) and len(nd.ast.ops) == 1 and isinstance(nd.ast.ops[0], ast.In)
+                  and isinstance(nd.ast.left, ast.Constant) and nd.ast.left.value == "." and isinstance(nd.ast.comparators[0], ast.Name) and nd.ast.comparators[0].id in modnames]
+        n += 1
+        if not answers:
+            ok, why = False, "no answer is decided by the equality of the statement's module name with the source module's name"
+        else:
+            ok, why = True, ""
+            for d in dotted:
+                for b, lab in cfg.succ[d.id]:
+                    if lab == "true" and not any(a.id in cfg.reachable(b) or a.id == b for a in answers):
+                        ok, why = False, "inside the branch for a source module in a package the answer is returned from the `from <package> import <module>` form alone: the equality test is never reached"
+        res.add("R05.25", f"MoveGlobal.{m.name}|from-import-of-the-source-module-is-selected", ok, m.where,
+                "an absolute from-import of the source module is selected whether or not the module lives in a package" if ok else
+                f"MoveGlobal.{m.name}: {why}.  `from pkg.src import scale` in a client is then not selected, organize_imports leaves it as it is next to the new `import pkg.dst`, "
+                "and the client raises ImportError (cannot import name 'scale' from 'pkg.src') when it is imported", function=m.qualname)
+    res.floor("R05.25", "import filters of MoveGlobal", n, 1)
